@@ -973,6 +973,26 @@ func genLayouts(p *pkgInfo, out string) {
 		cleanup = strings.Contains(norm(src(fd.Body)), "copy(r.Data, r.cs.pristineZeros) r.cs.readBufPool.Put(&r.fullBuffer)")
 	}
 	fmt.Fprintf(&sb, "def readBufferZeroedOnCleanup : Bool := %v\n", cleanup)
+	// send(): the pooled encode buffer goes back to the pool only after the frame has been written
+	// (and receive buffers only when recv returns: `defer dataPool.Put` in the function body, not
+	// inside the appendBuffer closure)
+	sendAfter := false
+	if fd := p.funcs["send"]; fd != nil {
+		b := norm(src(fd.Body))
+		w, put := strings.Index(b, "vecs.WriteTo(w)"), strings.Index(b, "dataPool.Put(")
+		sendAfter = w >= 0 && put > w && strings.Count(b, "dataPool.Put(") == 1
+	}
+	recvPut := false
+	for _, name := range []string{"recvLimit", "recv"} {
+		if fd := p.funcs[name]; fd != nil && !recvPut {
+			b := norm(src(fd.Body))
+			i := strings.Index(b, "appendBuffer := func(size int) *[]byte {")
+			j := strings.Index(b, "return datap }")
+			recvPut = i >= 0 && j > i && !strings.Contains(b[i:j], "dataPool.Put") && strings.Contains(b, "defer dataPool.Put(datap)")
+		}
+	}
+	fmt.Fprintf(&sb, "def sendBufferReleasedAfterWrite : Bool := %v\n", sendAfter)
+	fmt.Fprintf(&sb, "def recvBufferReleasedOnReturn : Bool := %v\n", recvPut)
 	sb.WriteString("\nend P9.Gen\n")
 	writeIfChanged(filepath.Join(out, "Layouts.lean"), sb.String())
 }
